@@ -915,6 +915,7 @@ struct Runner<'a> {
 impl Runner<'_> {
     /// one query against one built zone: run, decode, judge, record
     fn run_query(&mut self, cat: &Catalog, c: &Case, e: &Outcome) {
+        self.rep.breadcrumb(|| json!({"zone": c.z.to_json(), "mode": c.sign.to_json(), "query": c.query.to_json()}));
         self.rep.eval();
         self.rep.count(&format!("kind/{}", e.kind.as_str()));
         if let Some(end) = e.chain_end {
